@@ -4,7 +4,8 @@
     these templates and that rustc gives them this meaning is tied by the compiled corpus of twins and by the
     template translator (Gen_attr), not proved. *)
 From Coq Require Import Permutation.
-From TV Require Import Attr.Model Attr.Proofs Attr.ProofsRun Attr.ProofsSpan Attr.ProofsInterleave Attr.Examples.
+From TV Require Import Attr.Model Attr.Proofs Attr.ProofsRun Attr.ProofsSpan Attr.ProofsInterleave Attr.Examples Attr.SourceTie.
+From TVGen Require Gen_attr.
 Local Open Scope N_scope.
 
 (** Headline.  For every function skeleton, attribute, argument values and collector verdict (enabled,
@@ -89,3 +90,70 @@ Theorem C17_ret_err : forall c args f a,
   filter is_event (fst (run c args f (expand a f))) = expected_events c a (snd (run c args f (expand a f))).
 Proof. exact ret_err_thm. Qed.
 Print Assumptions C17_ret_err.
+
+(** Cancellation.  Which await site the caller drops the future at is part of [args] ([cancel_at]), so every theorem
+    above already quantifies over cancelled runs; spelled out: if the plain future is cancelled, so is the instrumented
+    one, at the same point of its own effects, with the same multiset of argument drops, and neither event is emitted
+    (by C17_body_inside the teardown happens inside the span and the span is not left entered). *)
+Theorem C17_cancellation : forall c args f a,
+  snd (run c args f TPlain) = RCancelled ->
+  snd (run c args f (expand a f)) = RCancelled
+  /\ filter is_event (fst (run c args f (expand a f))) = []
+  /\ own_effects (fst (run c args f (expand a f))) = own_effects (fst (run c args f TPlain))
+  /\ Permutation (xdrops (fst (run c args f (expand a f)))) (xdrops (fst (run c args f TPlain))).
+Proof. exact cancellation_thm. Qed.
+Print Assumptions C17_cancellation.
+
+(** * The tie to the source text (generated obligations: coq/gen/Gen_attr.v is rewritten from expand.rs / attr.rs on every run)
+
+    What the translator read off gen_block equals what the model implements: the eight templates (sync / async x err x ret)
+    have the shapes of [expand_sync] / [expand_async]; the sync prologue declares span then guard and, under the static
+    level test, creates the span, reports follows_from, enters; the async wrapper creates the span, builds the future,
+    and awaits it instrumented (after follows_from) iff the span is not disabled; nothing was left unrecognised. *)
+Theorem C17_source_templates :
+  Gen_attr.gen_unrecognised = nil
+  /\ (forall a, Gen_attr.gen_sync (is_some (a_err a)) (is_some (a_ret a)) = Some (shape_of (expand_sync a)))
+  /\ (forall a, Gen_attr.gen_async (is_some (a_err a)) (is_some (a_ret a)) = Some (shape_of (expand_async a)))
+  /\ Gen_attr.gen_sync_decls = Some sync_decls
+  /\ Gen_attr.gen_sync_steps = Some sync_steps
+  /\ Gen_attr.gen_sync_static_guard = true
+  /\ Gen_attr.gen_async_lets = Some async_lets
+  /\ Gen_attr.gen_async_then = Some async_then
+  /\ Gen_attr.gen_async_else = Some async_else
+  /\ Gen_attr.gen_async_cond_not_disabled = true
+  /\ Gen_attr.gen_follows_iterates = true
+  /\ Gen_attr.gen_span_macro_order = true
+  /\ Gen_attr.gen_name_default_fn = true
+  /\ Gen_attr.gen_filter_skip = true
+  /\ Gen_attr.gen_filter_override = true
+  /\ Gen_attr.gen_record_map = true.
+Proof. exact source_templates. Qed.
+Print Assumptions C17_source_templates.
+
+(** ... and those descriptions are what [run] executes: [run_sync] / [run_future] of an instrumented function are the
+    interpretations of the prologue / wrapper descriptions, for every template, function, collector and input. *)
+Theorem C17_prologue_is_run_sync : forall c args f sp fo e,
+  run_sync_steps sync_decls sync_steps c args f sp fo e = run_sync c args f (TInstr sp fo e).
+Proof. exact run_sync_steps_ok. Qed.
+Print Assumptions C17_prologue_is_run_sync.
+
+Theorem C17_wrapper_is_run_future : forall c args f sp fo e frame,
+  run_future_steps async_lets async_then async_else c args f sp fo e frame = run_future c args f (TInstr sp fo e) frame.
+Proof. exact run_future_steps_ok. Qed.
+Print Assumptions C17_wrapper_is_run_future.
+
+(** The ret / err events of the source: `%` / `?` per format mode, default levels (err: a constant; ret: the span's level),
+    the span's target, and the default span level are those of [err_spec] / [ret_spec] / [level_of]. *)
+Theorem C17_source_events :
+  (forall a ev, Gen_attr.gen_err_display (ev_mode ev) = Some (es_display (err_spec a ev)))
+  /\ (forall a ev, Gen_attr.gen_ret_display (ev_mode ev) = Some (es_display (ret_spec a ev)))
+  /\ (exists d, Gen_attr.gen_err_default = Some d
+        /\ forall a ev, es_level (err_spec a ev) = match ev_level ev with Some l => l | None => lvl_of_def a d end)
+  /\ (exists d, Gen_attr.gen_ret_default = Some d
+        /\ forall a ev, es_level (ret_spec a ev) = match ev_level ev with Some l => l | None => lvl_of_def a d end)
+  /\ Gen_attr.gen_event_target_is_span_target = true
+  /\ (forall a ev, es_target (err_spec a ev) = a_target a /\ es_target (ret_spec a ev) = a_target a)
+  /\ (exists l, Gen_attr.gen_default_level = Some l /\ forall a, a_level a = None -> level_of a = l)
+  /\ Gen_attr.gen_target_default_module_path = true.
+Proof. exact source_events. Qed.
+Print Assumptions C17_source_events.
